@@ -43,7 +43,7 @@ func H_C05_compareData() {
 	reach("compared")
 }
 
-var alphaShrink = []uint8{opReturn, opDrawBool, opErrorf, opFatalA, opFatalB, opHelperA, opHelperB, opFatalIfBit, opSkip, opPanicStr, opNilDeref, opNilDerefB, opDeepA, opDeepB, opIfBit}
+var alphaShrink = []uint8{opReturn, opDrawBool, opErrorf, opFatalA, opFatalB, opHelperA, opHelperB, opFatalIfBit, opPanicVal, opSkip, opPanicStr, opNilDeref, opNilDerefB, opDeepA, opDeepB, opIfBit}
 var alphaShrinkDeep = []uint8{opReturn, opDrawBool, opDrawSmall, opErrorf, opFatalA, opFatalB, opFatalIfBit, opFatalVal, opSkip, opPanicStr, opNilDeref, opNilDerefB, opDeepA, opDeepB, opIfBit}
 
 // H_C05_accept: one step of the real shrinker.accept from any state a run can produce.
@@ -72,6 +72,10 @@ func H_C05_accept() {
 	s := &shrinker{tb: tb, rec: rec, err: err0, prop: p.prop, tries: map[string]int{}, cache: map[string]struct{}{}}
 
 	buf := symSlice("c", L)
+	// what the candidate does on its own: does it fail, and at the same site?
+	errC := checkOnce(newT(tb, newBufBitStream(append([]uint64(nil), buf...), false), false, nil), p.prop)
+	sameSite := errC != nil && !errC.isInvalidData() && traceback(errC) == traceback(err0)
+	smaller := compareData(buf, old) < 0
 	var ok bool
 	pv := catch(func() { ok = s.accept(buf, "lbl", "candidate") })
 	if pv != nil {
@@ -83,6 +87,9 @@ func H_C05_accept() {
 	}
 	if !ok {
 		reach("rejected")
+		// completeness (needed by C12): minimisation can only reach the boundary if every smaller
+		// candidate that still fails at the same site is taken, whatever its message says
+		vassert(!(smaller && sameSite), "C12: the shrinker rejected a smaller candidate that fails at the same site")
 		vassert(compareData(s.rec.data, old) == 0, "C05: a rejected candidate changed the current best buffer")
 		vassert(traceback(s.err) == traceback(err0), "C05: a rejected candidate changed the current failure")
 		// Inv also after a rejection: the current best still replays to the error it is reported with
